@@ -79,6 +79,61 @@ eq("C01", "src/transaction.rs", """        Ok(TxOut {
         let script_pubkey = Decodable::consensus_decode(&mut d)?;
         Ok(TxOut { asset, value, nonce, script_pubkey, witness: TxOutWitness::default() })""", "locals")
 
+eq("C03", "src/sighash.rs", "        encode::consensus_encode_with_size(self.0, writer)\n", "        encode::consensus_encode_with_size(self.as_bytes(), writer)\n", "accessor instead of field")
+eq("C03", "src/sighash.rs", "    fn consensus_encode<W: io::Write>(&self, writer: W) -> Result<usize, encode::Error> {\n        encode::consensus_encode_with_size(self.0, writer)\n",
+   "    fn consensus_encode<W: io::Write>(&self, mut writer: W) -> Result<usize, encode::Error> {\n        let n = encode::VarInt(self.0.len() as u64).consensus_encode(&mut writer)?;\n        writer.write_all(self.0)?;\n        Ok(n + self.0.len())\n", "length prefix and bytes written by hand")
+eq("C08", "src/transaction.rs", "self.asset.is_confidential() || self.value.is_confidential() || !self.witness.is_empty()",
+   "!self.witness.is_empty() || self.value.is_confidential() || self.asset.is_confidential()", "disjunct order")
+eq("C08", "src/transaction.rs", "self.asset.is_confidential() || self.value.is_confidential() || !self.witness.is_empty()",
+   "!(self.witness.is_empty() && !self.value.is_confidential() && !self.asset.is_confidential())", "De Morgan")
+VOLD = """            domain.push(gen);
+            in_commits.push(
+                spent_utxos[i]
+                    .get_value_commit(secp)
+                    .map_err(|e| VerificationError::SpentTxOutError(i, e))?,
+            );
+"""
+VNEW = """            let vc = spent_utxos[i]
+                    .get_value_commit(secp)
+                    .map_err(|e| VerificationError::SpentTxOutError(i, e))?;
+            in_commits.push(vc);
+            domain.push(gen);
+"""
+for P in ("C05", "C04"):
+    eq(P, "src/blind.rs", VOLD, VNEW, "local for the commitment, the two pushes in the other order")
+
+LOLD = """        let set_a = inputs
+            .iter()
+            .map(|(value, abf, vbf)| CommitmentSecrets {
+                value: *value,
+                value_blinding_factor: vbf.0,
+                generator_blinding_factor: abf.into_inner(),
+            })
+            .collect::<Vec<_>>();
+        let set_b = outputs
+            .iter()
+            .map(|(value, abf, vbf)| CommitmentSecrets {
+                value: *value,
+                value_blinding_factor: vbf.0,
+                generator_blinding_factor: abf.into_inner(),
+            })
+            .collect::<Vec<_>>();
+"""
+LNEW = """        let secrets = |set: &[(u64, AssetBlindingFactor, ValueBlindingFactor)]| {
+            set.iter()
+                .map(|(value, abf, vbf)| CommitmentSecrets {
+                    value: *value,
+                    value_blinding_factor: vbf.0,
+                    generator_blinding_factor: abf.into_inner(),
+                })
+                .collect::<Vec<_>>()
+        };
+        let set_a = secrets(inputs);
+        let set_b = secrets(outputs);
+"""
+for P in ("C09", "C04"):
+    eq(P, "src/confidential.rs", LOLD, LNEW, "one local closure builds both sets")
+
 only = sys.argv[1] if len(sys.argv) > 1 else None
 bad = 0
 for prop, path, old, new, why in R:
